@@ -49,7 +49,7 @@ class C49(dst.Check):
         'pthread mutex/cond, futex, sched_yield': 'stub: simulated by detsched (that is the seam)',
         'context factory / EngineImpl': 'real (an Engine is created; workers create their maestro-like context)',
     }
-    budgets = {'quick': dict(runs=9000, wall=45), 'thorough': dict(runs=200000, wall=600)}
+    budgets = {'quick': dict(runs=20000, wall=40), 'thorough': dict(runs=250000, wall=600)}
     shrink_budget = 300
 
     # ------------------------------------------------------------------------------------------------------
@@ -97,10 +97,11 @@ class C49(dst.Check):
             else:
                 faults['starve'] = r.randint(1, 3)
                 faults['starvek'] = r.choice([20, 100, 300])
-        est = est_steps(mode, workers, applies, destroy)
-        est = max(10, int(est * r.choice([0.5, 1.0, 1.0, 1.5])))
+        est0 = est_steps(mode, workers, applies, destroy)
+        est = max(10, int(est0 * r.choice([0.5, 1.0, 1.0, 1.5])))
+        # step cap (livelock): measured steps/est0 on the unchanged tree: median 0.9, max 14 (starvation + late start)
         return dict(seed=seed & 0x7fffffffffffffff, mode=mode, workers=workers, applies=applies, destroy=destroy,
-                    sched=sched, faults=faults, est=est)
+                    sched=sched, faults=faults, est=est, cap=100 * est0 + 20000)
 
     # ------------------------------------------------------------------------------------------------------
     def binary(self):
@@ -109,7 +110,7 @@ class C49(dst.Check):
     def cmdline(self, plan):
         a = ['seed=%d' % plan['seed'], 'mode=%s' % plan['mode'], 'workers=%d' % plan['workers'],
              'applies=%s' % ','.join(str(n) for n in plan['applies']), 'destroy=%d' % plan['destroy'],
-             'est=%d' % plan['est']]
+             'est=%d' % plan['est'], 'cap=%d' % plan['cap']]
         for k in sorted(plan['sched']):
             a.append('%s=%s' % (k, plan['sched'][k]))
         for k in sorted(plan['faults']):
@@ -136,8 +137,7 @@ class C49(dst.Check):
                 sv.stdin.write((' '.join(args) + '\n').encode())
                 sv.stdin.flush()
             except (BrokenPipeError, OSError):
-                C49._server = None
-                continue
+                pass  # it died (e.g. in its warm-up): what it printed is the result
             buf = b''
             fd = sv.stdout.fileno()
             eof = False
@@ -194,6 +194,8 @@ class C49(dst.Check):
             out = out.decode(errors='replace')
             err = err.decode(errors='replace')
         res = dict(rc=rc, verdict=None, fields={}, violation='', pending='', stderr=err[-600:], applies_ok=0)
+        if 'START' not in out and 'RESULT ' not in out and 'WARMUP' not in out:
+            raise dst.Infra('parmapsim did not start (rc=%s): %s %s' % (rc, out[-200:], err[-300:]))
         for line in out.splitlines():
             if line.startswith('RESULT '):
                 f = dict(kv.split('=', 1) for kv in line.split()[1:] if '=' in kv)
@@ -268,7 +270,7 @@ class C49(dst.Check):
         s['probe_futex_early_return'] = 1 if g('fault_futex_eintr') + g('fault_futex_eagain') + g('fault_futex_spur0') > 0 else 0
         s['probe_late_start'] = 1 if g('fault_late_start') > 0 else 0
         s['probe_starved'] = 1 if g('fault_starve') > 0 else 0
-        s['probe_fair_forced'] = 1 if g('fair_forced') > 0 else 0
+        s['fair_forced_runs'] = 1 if g('fair_forced') > 0 else 0
         s['probe_empty_apply'] = 1 if 0 in plan['applies'] else 0
         s['probe_pool_leaked'] = 0 if plan['destroy'] else 1
         s['mode_' + plan['mode']] = 1
@@ -282,6 +284,7 @@ class C49(dst.Check):
             p = dict(plan)
             p.update(kw)
             p['est'] = est_steps(p['mode'], p['workers'], p['applies'], p['destroy'])
+            p['cap'] = 100 * p['est'] + 20000
             return p
         ap = plan['applies']
         # fewer applies
